@@ -403,6 +403,9 @@ JudgePair(tr, ev) ==
 (* decimals in the record), or c hundredths for values beyond 32 bits.     *)
 (***************************************************************************)
 NatArg(n) == n.cls = "int" /\ n.v >= 0
+\* a whole number handed over in another representation (3.0, numpy.int64(3)): whether the library takes it is not judged;
+\* if it does, the record carries the plain integer (C09.foreign, C09.wellformed)
+Foreign(n) == n.cls \in {"intfloat", "npint"}
 RArgsValid(T, a) ==
   /\ TextOK(a.srack, TRUE) /\ TextOK(a.drack, TRUE) /\ TextOK(a.sid, TRUE) /\ TextOK(a.stype, TRUE)
   /\ TextOK(a.did, TRUE) /\ TextOK(a.dtype, TRUE) /\ TextOK(a.lc, FALSE)
@@ -432,13 +435,17 @@ JudgeEmit(tr, T, ev) ==
        ok /\ n = 1 /\ r1.t = "W" /\ r1.scheme = a.n.v),
     Cl("C09.wash.diti", fn = "wash" /\ T.diti /\ a.n.cls = "int" /\ a.n.v \in 1..4,
        ok /\ n = 1 /\ r1.t = "W" /\ r1.scheme = 0),
-    Cl("C09.wash.bad", fn = "wash" /\ ~T.diti /\ ~(a.n.cls = "int" /\ a.n.v \in 1..4), ~ok /\ none),
+    Cl("C09.wash.bad", fn = "wash" /\ ~T.diti /\ ~(a.n.cls = "int" /\ a.n.v \in 1..4) /\ ~Foreign(a.n), ~ok /\ none),
+    Cl("C09.foreign", fn = "wash" /\ ~T.diti /\ Foreign(a.n) /\ ok, n = 1 /\ r1.t = "W" /\ r1.scheme = a.n.v /\ a.n.v \in 1..4),
+    Cl("C09.foreign", fn = "set_diti" /\ Foreign(a.n) /\ ok, n = 1 /\ r1.t = "S" /\ r1.idx = a.n.v /\ a.n.v >= 0 /\ LastIsBreak),
+    Cl("C09.foreign", fn \in {"aspirate_well", "dispense_well"} /\ Foreign(a.pos) /\ ok,
+       n = 1 /\ r1.t = (IF fn = "aspirate_well" THEN "A" ELSE "D") /\ r1.pos = a.pos.v /\ a.pos.v >= 1 /\ r1.cents = VolCents(a.vol)),
     Cl("C09.decon", fn = "decontaminate", IF T.diti THEN ~ok /\ none ELSE ok /\ n = 1 /\ r1.t = "WD"),
     Cl("C09.flush", fn = "flush", ok /\ n = 1 /\ r1.t = "F"),
     Cl("C09.commit", fn = "commit", ok /\ n = 1 /\ r1.t = "B"),
     Cl("C09.setditi.ok", fn = "set_diti" /\ NatArg(a.n) /\ LastIsBreak, ok /\ n = 1 /\ r1.t = "S" /\ r1.idx = a.n.v),
     Cl("C09.setditi.where", fn = "set_diti" /\ ~LastIsBreak, ~ok /\ none),
-    Cl("C09.setditi.bad", fn = "set_diti" /\ ~NatArg(a.n), ~ok /\ none),
+    Cl("C09.setditi.bad", fn = "set_diti" /\ ~NatArg(a.n) /\ ~Foreign(a.n), ~ok /\ none),
     Cl("C09.well.ok", fn \in {"aspirate_well", "dispense_well"} /\ TextOK(a.rack, TRUE) /\ PosArg(a.pos) /\ VolArgValid(T, a.vol) /\ KwValid(a.kw),
        LET kv == KwValues(a.kw) IN
        /\ ok /\ n = 1 /\ r1.t = (IF fn = "aspirate_well" THEN "A" ELSE "D")
@@ -446,7 +453,7 @@ JudgeEmit(tr, T, ev) ==
        /\ r1.lc = kv.lc /\ r1.tip = kv.tip /\ r1.rackid = kv.rackid /\ r1.racktype = kv.racktype
        /\ r1.tube = kv.tube /\ r1.frt = kv.frt /\ r1.tiptype = ""),
     Cl("C09.well.bad", fn \in {"aspirate_well", "dispense_well"}
-                       /\ ~(TextOK(a.rack, TRUE) /\ NatArg(a.pos) /\ VolArgValid(T, a.vol) /\ KwValid(a.kw)),
+                       /\ ~(TextOK(a.rack, TRUE) /\ NatArg(a.pos) /\ VolArgValid(T, a.vol) /\ KwValid(a.kw)) /\ ~Foreign(a.pos),
        ~ok /\ none),
     Cl("C09.r.ok", fn = "reagent_distribution" /\ RArgsValid(T, a),
        /\ ok /\ n = 1 /\ r1.t = "R"
@@ -461,7 +468,8 @@ JudgeEmit(tr, T, ev) ==
                                    /\ (a.md.v * VolCents(a.vol) <= T.wlmaxc => r1.md = a.md.v)
                                    /\ (a.md.v * VolCents(a.vol) > T.wlmaxc => (r1.md + 1) * VolCents(a.vol) > T.wlmaxc)))
        /\ (VolCents(a.vol) = 0 => r1.md = a.md.v)),
-    Cl("C09.r.bad", fn = "reagent_distribution" /\ ~RArgsValid(T, a), ~ok /\ none),
+    Cl("C09.r.bad", fn = "reagent_distribution" /\ ~RArgsValid(T, a)
+                    /\ ~(Foreign(a.s1) \/ Foreign(a.s2) \/ Foreign(a.d1) \/ Foreign(a.d2) \/ Foreign(a.reuse) \/ Foreign(a.md)), ~ok /\ none),
     \* C06: never more multi-dispenses per aspiration than fit into max_volume, reduced only as far as needed
     Cl("C06.rmultidisp", fn = "reagent_distribution" /\ RArgsValid(T, a) /\ ok /\ n = 1 /\ VolCents(a.vol) > 0,
        /\ r1.md >= 1 /\ r1.md <= a.md.v /\ r1.md * VolCents(a.vol) <= T.wlmaxc
